@@ -4,14 +4,14 @@ CONSTANTS
   P <- PC
   Z0 <- Z0C
   Family = "cyl"
-  NrC = 4
-  NzC = 8
-  PZC = FALSE
+  NrC = 3
+  NzC = 6
+  PZC = TRUE
   DR = 4
   DZ = 4
-  Z0P = 13
-  Mode = "render"
-  R2S <- R2Sdef_q_cyl_ren
+  Z0P = 16
+  Mode = "free"
+  R2S <- R2Sdef_t_cylp_free4
   ZStep = 1
   CentralRule = "halfopen"
   SpanRule = "whole"
